@@ -107,6 +107,16 @@ class Pool:
         scale = spec['wcs']['scale']
         self.sky = [build_sky_leaf({'cls': d['cls'], 'dx': d['dx'], 'dy': d['dy'], 'size_deg': d['size_px'] * scale, 'seed': d['seed'],
                                     'frame': spec['wcs']['frame']}, self.wcs) for d in spec['sky']]
+        # a centre the caller holds in Cartesian form (x, y, z): conversions may refuse it, they may not rewrite it
+        if self.sky and hasattr(self.sky[0], 'center') and spec['imseed'] % 3 == 0:
+            from astropy.coordinates import SkyCoord
+            c0 = self.sky[0].center
+            cart = SkyCoord(c0.cartesian, frame=c0.frame.replicate_without_data(), representation_type='cartesian')
+            try:
+                self.sky[0] = self.sky[0].copy(center=cart)
+                self.notes['sky-centre-in-cartesian-representation'] += 1
+            except Exception:
+                pass
         nrng = np.random.default_rng(spec['imseed'])
         cr = self.wcs.wcs.crpix
         # (the integer image is as large as the float one: masks of integer type - annuli, compounds - lie fully inside it)
